@@ -294,7 +294,7 @@ def illState (env : Env) : Nat → Json → Str → Json → Json → Json → N
           | .ok params =>
             let (n, counts) := bump st.counts (fn, params)
             let st := { st with counts := counts }
-            match decodeReply (env.task fn params n) with
+            match taskReply env.maxData (env.task fn params n) with
             | .err e msg => illErr env fuel states name state data ctx retries e msg st
             | .ok v =>
               match tmplOpt env v ctx (fld state "ResultSelector") with
@@ -341,7 +341,9 @@ def illJoin (env : Env) : Nat → Json → Str → Json → Json → Json → Na
   | fuel + 1, states, name, state, data, ctx, retries, r, st =>
     match r with
     | .error (.failed e cause _) =>
-      let msg : Str := match cause with | some _ => S "m" | none => []
+      -- `if error_message:` — a branch that failed without a Cause, or with a falsy one (a Fail state with
+      -- `Cause: ""`), gives an Error Output without `Cause`
+      let msg : Str := if isTrue cause then S "m" else []
       illErr env fuel states name state data ctx retries e msg st
     | .error _ => false
     | .ok results =>
